@@ -10,12 +10,11 @@ GENS = ['units', 'consts']
 TARGETS = ['BC.Props.C01']
 PROP_FILES = ['BC/Props/C01.lean', 'BC/Lemmas/Vec.lean', 'BC/Lemmas/C01Conv.lean']
 # source ties: function bodies regenerated from the Python source by translate/t_funcs.py, proved equal to the model functions
-SRC = {'module': 'BC.Props.C01Src', 'file': 'BC/Props/C01Src.lean', 'lemma_files': ['BC/Lemmas/SrcLoop.lean', 'BC/Lemmas/SrcFilter.lean', 'BC/Props/C12Src.lean', 'BC/Props/C05Src.lean', 'BC/Props/C04Src.lean'],
-       'theorems': ['C01_src_iterate', 'C01_src_loop', 'C01_src_step', 'C01_src_initial_state', 'C01_src_vec_magnitude', 'C01_src_vec_mul_by_const', 'C01_src_vec_add', 'C01_src_vec_sub', 'C01_src_wind_vector', 'C01_src_barrel_elevation', 'C01_src_barrel_azimuth', 'C01_src_drag_by_mach']}
+SRC = {'module': 'BC.Props.C01Src', 'file': 'BC/Props/C01Src.lean',
+       'theorems': ['C01_src_step', 'C01_src_initial_state', 'C01_src_vec_magnitude', 'C01_src_vec_mul_by_const', 'C01_src_vec_add', 'C01_src_vec_sub', 'C01_src_wind_vector', 'C01_src_barrel_elevation', 'C01_src_barrel_azimuth', 'C01_src_drag_by_mach']}
 THEOREMS = ['C01_step_is_scheme', 'C01_iterate_physics', 'C01_env_of_shot', 'C01_initial_state', 'C01_barrel_direction',
             'C01_vacuum_closed_form', 'C01_vacuum_bound', 'C01_converges_partial', 'C01_first_order', 'C01_model_converges_partial']
 STATEMENTS = {
-    'C01_src_iterate': 'SOURCE TIE, WHOLE LOOP BODY: the model function iterate (one iteration of the integration loop: wind update, atmosphere, recording, step, limit check) equals Src.loop_body, the entire body of the while loop of _integrate executed symbolically from the Python source on every run, for every loop state (hypotheses: atmosphere look-up answers, the speeds of sound entering velocity/mach are non-zero, the sock horizon is the class constant); C01_src_loop: one unfolding of the model loop = the source while-condition + iterate',
     'C01_src_step': 'SOURCE TIE (all C01_src_*): the statements of the while loop of TrajectoryCalc._integrate from velocity_adjusted = ... to time += delta_time, executed symbolically with the Vector operators inlined, ARE Model.step (rfl); likewise Vector.magnitude/mul_by_const/add/subtract, Wind.vector, Shot.barrel_elevation/azimuth, drag_by_mach',
     'C01_step_is_scheme': 'the loop body is semi-implicit Euler for accel = g - rho |v-w| dbm(|v-w|/c) (v-w): v\' = v + dt accel, r\' = r + dt v\', dt = calc_step/max(1,|v-w|)',
     'C01_iterate_physics': 'every iteration applies that step with the wind of the segment active at the projectile\'s x and the atmosphere at station altitude + y',
